@@ -109,7 +109,7 @@ TOKENS = [b"nil", b"nil:", b"nilx", b"t", b"tt", b"t:", b":a", b"a:", b":a:", b"
           b"#x10", b"#b101", b"#b102", b"#d1.5", b"#e1", b"#xg", b"#x-a", b"#x+A", b"#o8", b"\xce\xbb", b"\xce\xbb:", b"\xe2\x82\xac", b"a\"b", b"a|b", b"a#b",
           b"a'b", b"|", b"{", b"\\", b"@", b"_x", b"!", b"a\x00b", b"-\x00", b"\x00", b"\x0b", b"1\"a\"", b"12|", b"5:", b"5nil", b"0nil:", b"9.9.9",
           b"550e8400-e29b-41d4", b"1e-7x", b"++", b"-+", b"+-", b"--", b"+++x", b"-+-", b"+.", b"-.", b"+@", b"-~x", b"-1+", b"+1-", b"0.0000001", b"-0", b"+0", b"00012", b"1E3", b"#XFF", b"#Xff", b"t.", b"nil.", b":nil", b":t", b"nil:t"]
-CONTEXTS = [(b"", b""), (b"(", b")"), (b"(x ", b")"), (b"(", b" x)"), (b"(x . ", b")"), (b"#(", b")"), (b"[x ", b"]"), (b"'", b""), (b"(x . ", b" )"), (b"#(y ", b" z)")]
+CONTEXTS = [(b"", b""), (b"", b";c\n"), (b"(", b";c\n)"), (b"(", b")"), (b"(x ", b")"), (b"(", b" x)"), (b"(x . ", b")"), (b"#(", b")"), (b"[x ", b"]"), (b"'", b""), (b"(x . ", b" )"), (b"#(y ", b" z)")]
 
 
 def token_opts():
@@ -142,7 +142,7 @@ def corpus_lists():
              b"(a . nil)", b"(nil . nil)", b"(nil)", b"(t . t)", b"#(nil t)", b"(a . #nil)", b"(#nil . a)", b"(a . ())", b"(() . ())", b"((a . b) . (c . d))",
              b"a b c", b"a ; c\n b", b"a)b", b"a]", b")", b"]", b"(a))", b"#;a", b"#|a|#", b" \t\r\n\x0c a", b"\x0ba", b"a\x0cb", b"(a\x0cb)", b"(a\x0bb)",
              b"(a\"s\"b)", b"(\"s\"\"t\")", b"(1\"s\")", b"(a(b)c)", b"(a[b]c)", b"(a#t)", b"(#t#f)", b"(#\\a#\\b)", b"(1 2 . 3)", b"(1 . 2 3)", b"(1 .2)",
-             b"(1 2.)", b"(- . +)", b"(+ -)", b"#(+ -)", b"[+ -]", b"[a . b]", b"(a . [b])", b"[- ]", b"(... . ...)", b"(.. . a)", b"(a . . b)"]
+             b"(\"a\\n\" .x)", b"(#\\space .x)", b"(1.5 .x)", b"(-y .x)", b"(\"\\x41;\" .x: .y)", b"(1 2.)", b"(- . +)", b"(+ -)", b"#(+ -)", b"[+ -]", b"[a . b]", b"(a . [b])", b"[- ]", b"(... . ...)", b"(.. . a)", b"(a . . b)"]
     osets = [DEFAULT, ELISP, P(k=7, nil=0, t=0, br=1), P(k=0, nil=2, t=0, br=0, dg=1), P(k=2, nil=2, br=1, ss=1, cs=1)]
     for t in texts:
         for o in osets:
@@ -165,6 +165,7 @@ def corpus_numbers():
              b"1.", b"1.e3", b"1e", b"1e+", b"#x1.5", b"#b12", b"#xg", b"+1", b"-1", b"+.5", b"1/2", b"1+", b"12ab", b"0x10", b"1.5.6", b"1e3.5", b"1e3e4", b"00", b"007",
              b"#d-12.5e-1", b"#d1e2", b"#x1e2", b"#xe", b"#xE1", b"#b1e1", b"1e0", b"1e00000000000000000000001", b"1e99999999999999999999", b"0e99999999999999999999",
              b"1e-99999999999999999999", b"0.0", b"-0.0", b"5e-324", b"2e-324", b"1.7976931348623157e308", b"1.7976931348623159e308",
+             b"#x1" + b"0" * 256, b"#x" + b"f" * 300, b"#b1" + b"0" * 1024, b"#o1" + b"0" * 342, b"#x1" + b"0" * 255, b"#x-1" + b"0" * 260, b"#b" + b"1" * 1100,
              b"3.14159265358979323846264338328", b"6.0221407600000000000000000e23", b"184467440737095516150.5", b"0.10000000000000000000000000001",
              b"1.00000000000000000000000000000", b"99999999999999999999.99999999999999999999", b"18446744073709551615.5", b"1844674407370955161.65",
              b"0.000000000000000000000000000001234567890123456789012345", b"123456789012345678.90123456789e-5", b"-2.718281828459045235360287471352"]
